@@ -43,6 +43,8 @@ var whoMayCall = map[string]struct {
 		"routing table is filled during merge only (C04)"},
 	"merger.(TypeURLMap).SetTypeIsImplementsNode": {[]string{"merger.(TypeURLMap).SetFromSchema"},
 		"Node marking happens during merge only (C04)"},
+	"introspection.(*IntrospectionResolver).ResolveIntrospectionFields": {[]string{"pebbles.(*Gateway).parseIntrospectionQuery"},
+		"introspection is answered at one place, from the selection set of the plan's internal step — the one the planner has sanitised (named fragments expanded at every depth, C16); a second entry point hands the resolver a selection set prepared some other way"},
 	"time.Now": {[]string{"planner.(*CachedPlanner).*"},
 		"wall-clock time is used by the plan cache's TTL only (C13); the entry stands for every source of run-to-run variation: time.Since/Until and the random-number packages are counted as calls of it (callFamily)"},
 }
